@@ -132,6 +132,11 @@ fn concat(a: V, b: V) -> R<V> {
             x.extend(y);
             Ok(V::Bytes(x))
         }
+        // mixed sequence kinds: HEAD refuses, a sensible result exists
+        (
+            V::List(_) | V::Vector(_) | V::Bytes(_) | V::Str(_) | V::Stream(_),
+            V::List(_) | V::Vector(_) | V::Bytes(_) | V::Str(_) | V::Stream(_),
+        ) => crate::model::throw_unsupported("argument error: ++"),
         _ => throw("argument error: ++"),
     }
 }
